@@ -102,7 +102,9 @@ theorem expandGo_fixed_returns (known : Bytes → Bool) (reqs : List Bytes) (acc
         · rw [h']; exact ret_err _
       · split
         · exact ret_err _
-        · exact ih _
+        · split
+          · exact ret_err _
+          · exact ih _
     · rw [hc]; exact ret_err _
 
 /-- a request string that is rejected whatever has been built so far makes the whole list rejected -/
@@ -126,7 +128,9 @@ theorem expandGo_rejects (fixed : Bool) (known : Bytes → Bool) (pre : List Byt
         | fatal w => simp [Res.isOk]
       · split
         · simp [Res.isOk]
-        · exact ih _
+        · split
+          · simp [Res.isOk]
+          · exact ih _
     | err c => simp [Res.isOk]
     | panic w => simp [Res.isOk]
     | fatal w => simp [Res.isOk]
@@ -479,53 +483,93 @@ theorem spread_fixed_neg (ws : List Int) (h : ∃ w ∈ ws, w < 0) : spread true
     exact List.any_eq_true.mpr ⟨w, hw, by simpa using hn⟩
   simp [this]
 
-/-- the repaired `decodeAmmo`: an error for a negative weight, otherwise the counts (all ≥ 0) - provided the announced
-number of copies fits in memory -/
-theorem spread_fixed (ws : List Int) (hmem : sumInt (ws.map normWeight) * 8 ≤ memCap) :
-    spread true ws = .err "weight" ∨ ∃ cs, spread true ws = .ok cs ∧ cs.length = ws.length ∧ ∀ c ∈ cs, 0 ≤ c := by
+theorem wrap64_id_nonneg (x : Int) (h0 : 0 ≤ x) (h1 : x < 9223372036854775808) : wrap64 x = x := by
+  unfold wrap64; omega
+
+theorem sumInt_le_mul (cs : List Int) (b : Int) (h : ∀ c ∈ cs, c ≤ b) : sumInt cs ≤ cs.length * b := by
+  induction cs with
+  | nil => simp [sumInt]
+  | cons a as ih =>
+    have h1 := ih (fun c hc => h c (by simp [hc]))
+    have h2 := h a (by simp)
+    simp only [sumInt, List.foldr_cons, List.length_cons] at h1 ⊢
+    have : ((as.length + 1 : Nat) : Int) * b = (as.length : Int) * b + b := by
+      rw [Int.natCast_add, Int.add_mul]; simp
+    omega
+
+/-- the repaired `decodeAmmo` (4cfc662), EVERY list of weights: an error, or the counts - each between 0 and `MaxSpreadSize`, and
+so is the (wrapped) total the slice is allocated from -/
+theorem spread_fixed (ws : List Int) :
+    (∃ c, spread true ws = .err c) ∨
+    ∃ cs, spread true ws = .ok cs ∧ cs.length = ws.length ∧ (∀ c ∈ cs, 0 ≤ c ∧ c ≤ maxSpreadSize) ∧
+      0 ≤ wrap64 (sumInt cs) ∧ wrap64 (sumInt cs) ≤ maxSpreadSize := by
   by_cases hneg : ∃ w ∈ ws, w < 0
-  · left; exact spread_fixed_neg ws hneg
-  · right
-    have hall : ∀ w ∈ ws, ¬ w < 0 := fun w hw hn => hneg ⟨w, hw, hn⟩
+  · left; exact ⟨_, spread_fixed_neg ws hneg⟩
+  · have hall : ∀ w ∈ ws, ¬ w < 0 := fun w hw hn => hneg ⟨w, hw, hn⟩
     obtain ⟨cs, h1, h2, h3, h4⟩ := spreadCounts_nonneg ws hall
-    refine ⟨cs, ?_, h2, h3⟩
-    unfold spread
-    have : ws.any (fun w => decide (w < 0)) = false := by
+    have hany : ws.any (fun w => decide (w < 0)) = false := by
       apply Bool.eq_false_iff.mpr
       intro hany
       obtain ⟨w, hw, hn⟩ := List.any_eq_true.mp hany
       exact hall w hw (by simpa using hn)
-    simp only [this, Bool.and_false, Bool.false_eq_true, if_false, h1]
-    rw [makeCapC_ok _ (sumInt_nonneg cs h3) (by omega)]
+    unfold spread
+    simp only [hany, Bool.and_false, Bool.false_eq_true, if_false, h1, if_true, Bool.true_and]
+    by_cases hc : checkSpread cs (wrap64 (sumInt cs)) = true
+    · left; exact ⟨"spread", by simp [hc]⟩
+    · right
+      have hc' : checkSpread cs (wrap64 (sumInt cs)) = false := by simpa using hc
+      unfold checkSpread at hc'
+      rw [Bool.or_eq_false_iff] at hc'
+      obtain ⟨ht, hcs⟩ := hc'
+      have ht' : ¬ (wrap64 (sumInt cs) < 0 ∨ wrap64 (sumInt cs) > maxSpreadSize) := by simpa using ht
+      have hcs' : ∀ c ∈ cs, 0 ≤ c ∧ c ≤ maxSpreadSize := by
+        intro c hcm
+        have := List.any_eq_false.mp hcs c hcm
+        have : ¬ (c < 0 ∨ c > maxSpreadSize) := by simpa using this
+        omega
+      refine ⟨cs, ?_, h2, hcs', by omega, by omega⟩
+      simp only [checkSpread, ht, hcs, Bool.or_false, Bool.false_eq_true, if_false]
+      rw [makeCapC_ok _ (by omega) (by unfold memCap; unfold maxSpreadSize at ht'; omega)]
+
+/-- with fewer than 2^39 scenarios the total does not wrap: the copies allocated and appended are at most `MaxSpreadSize` -/
+theorem spread_fixed_total (ws cs : List Int) (h : spread true ws = .ok cs) (hlen : ws.length < 549755813888) :
+    sumInt cs ≤ maxSpreadSize := by
+  rcases spread_fixed ws with ⟨c, hc⟩ | ⟨cs', h', hl, hb, h0, h1⟩
+  · rw [hc] at h; cases h
+  · rw [h'] at h; cases h
+    have hs0 : 0 ≤ sumInt cs := sumInt_nonneg cs (fun c hc => (hb c hc).1)
+    have hs1 := sumInt_le_mul cs maxSpreadSize (fun c hc => (hb c hc).2)
+    have : wrap64 (sumInt cs) = sumInt cs := by
+      apply wrap64_id_nonneg _ hs0
+      unfold maxSpreadSize at hs1
+      have : (cs.length : Int) < 549755813888 := by omega
+      have hmul : (cs.length : Int) * 16777216 ≤ 549755813887 * 16777216 :=
+        Int.mul_le_mul_of_nonneg_right (by omega) (by omega)
+      omega
+    omega
 
 /-! ### randString -/
 
-theorem randStringLen_fixed (n : Int) (hmem : n * 4 ≤ memCap) :
+/-- the repaired `randString` (28b7d1e), EVERY announced length -/
+theorem randStringLen_fixed (n : Int) :
     (n < 0 ∧ randStringLen true n = .err "length") ∨ (n = 0 ∧ randStringLen true n = .ok 1) ∨
-    (0 < n ∧ randStringLen true n = .ok n.toNat) := by
-  unfold randStringLen makeRunesC maxAlloc
-  unfold memCap at hmem
+    (0 < n ∧ n ≤ maxRandStringLength ∧ randStringLen true n = .ok n.toNat) ∨
+    (maxRandStringLength < n ∧ randStringLen true n = .err "length") := by
+  unfold randStringLen makeRunesC maxAlloc memCap maxRandStringLength
   by_cases h0 : n = 0
-  · subst h0; right; left; simp [memCap]
+  · subst h0; right; left; simp
   · by_cases hn : n < 0
     · left; simp [h0, hn]
-    · right; right
-      have a : ¬ n * 4 > 281474976710656 := by omega
-      have b : ¬ n * 4 > memCap := by unfold memCap; omega
-      refine ⟨by omega, ?_⟩
-      simp [h0, hn, a, b]
+    · by_cases hb : n > 16777216
+      · right; right; right; simp [h0, hn, hb]
+      · right; right; left
+        have a : ¬ n * 4 > 281474976710656 := by omega
+        have b : ¬ n * 4 > 4294967296 := by omega
+        refine ⟨by omega, by omega, ?_⟩
+        simp [h0, hn, hb, a, b]
 
-theorem randStringLen_fixed_no_panic (n : Int) : (randStringLen true n).isPanic = false ∨ n * 4 > maxAlloc := by
-  by_cases hbig : n * 4 > maxAlloc
-  · right; exact hbig
-  · left
-    unfold randStringLen makeRunesC
-    by_cases h0 : n = 0
-    · subst h0; simp [maxAlloc, memCap, Res.isPanic]
-    · by_cases hn : n < 0
-      · simp [h0, hn, Res.isPanic]
-      · by_cases hm : n * 4 > memCap <;>
-          simp [h0, hn, hbig, hm, Res.castFail, Res.isPanic]
+theorem randStringLen_fixed_no_panic (n : Int) : (randStringLen true n).isPanic = false := by
+  rcases randStringLen_fixed n with ⟨_, h⟩ | ⟨_, h⟩ | ⟨_, _, h⟩ | ⟨_, h⟩ <;> rw [h] <;> simp [Res.isPanic]
 
 theorem pickLetter_returns (nLetters rnd : Nat) : ∃ i, pickLetter nLetters rnd = .ok i := by
   unfold pickLetter defaultLetters
